@@ -335,6 +335,13 @@ def generate(repo):
     except StopIteration:
         facts['be_pop_before_flag'] = False
 
+    # an exited thread's context is removed only when its queue AND its transit event buffer are empty (both queue kinds)
+    cl_txt = re.sub(r'\s+', ' ', ' '.join(sk['be_cleanup_invalidated_thread_contexts']))
+    facts['be_ctx_removal_requires_empty_buffer'] = (
+        'unbounded_spsc_queue.empty() && thread_context->_transit_event_buffer->empty()' in cl_txt and
+        '.bounded_spsc_queue.empty() && thread_context->_transit_event_buffer->empty()' in cl_txt and
+        '!thread_context->is_valid()' in cl_txt)
+
     # the Flush event flushes every active sink unconditionally (interval literal 0 => should_flush_sinks = true),
     # before the caller's flag is captured
     for m in ('_process_transit_event', '_flush_and_run_active_sinks'):
